@@ -10,6 +10,7 @@
 -- the STARK/FRI interaction, not from the code), against which both scripts are judged.
 -- No Mathlib; only core.  The coin itself (what `reseed`, `draw`, `check_leading_zeros`,
 -- `draw_integers` compute) is the model of C19 (Winter/Model/Coin.lean).
+import Winter.Model.Coin
 
 namespace Model.Transcript
 
@@ -349,6 +350,82 @@ def absorbedMsgs : List CoinOp → List Msg
     whose commitment was absorbed before the query positions were drawn -/
 def remainderBound {D E : Type} [DecidableEq D] (hashElements : List E → D) (cfg : Cfg) (p : ProofData D E) : Bool :=
   verifierAbsorbs hashElements cfg p .remainderCommitment == some (hashElements p.friRemainder)
+
+-- ====================================================================================== running a script
+/-- the concrete data of one run: statement, message digests, nonce, and the base field of the coin -/
+structure Env (D : Type) where
+  seed : SeedPart → List Nat
+  msg : Msg → D
+  nonce : Nat
+  fd : Model.Coin.FieldDesc
+
+/-- the `RandomCoin` calls (model of C19, Winter/Model/Coin.lean) a script operation stands for; the two
+    halves of `draw_integers` are one call, `new` is the initial state (see `seedOf`) -/
+def compileOp {D : Type} (env : Env D) (cfg : Cfg) : CoinOp → List (Model.Coin.Op D)
+  | .new _ => []
+  | .reseed m => [.reseed (env.msg m)]
+  | .draw _ n => List.replicate n (.draw env.fd cfg.ext)
+  | .checkPow => [.checkLeadingZeros env.nonce]
+  | .reseedWithNonce => []
+  | .drawInts n d => [.drawIntegers n d env.nonce]
+
+def compile {D : Type} (env : Env D) (cfg : Cfg) (s : List CoinOp) : List (Model.Coin.Op D) :=
+  s.flatMap (compileOp env cfg)
+
+/-- the seed elements passed to `RandomCoin::new` -/
+def seedOf {D : Type} (env : Env D) : List CoinOp → List Nat
+  | .new parts :: _ => parts.flatMap env.seed
+  | _ => []
+
+/-- the outputs of all coin calls of a script (challenge values, PoW count, query positions), by the coin model of C19 -/
+def runScript {D : Type} (H : Model.Coin.HashOps D) (env : Env D) (cfg : Cfg) (s : List CoinOp) : List Model.Coin.Out :=
+  (Model.Coin.run H (seedOf env s) (compile env cfg s)).1
+
+-- ====================================================================================== the context part of the seed
+/-- the proof context (`air/src/proof/context.rs`: trace info, field modulus, proof options) as plain numbers -/
+structure Ctx where
+  mainWidth : Nat
+  auxWidth : Nat
+  auxRands : Nat
+  traceLen : Nat
+  /-- `TraceInfo::trace_meta`, bytes -/
+  traceMeta : List Nat
+  /-- the field: modulus and `ELEMENT_BYTES` (= number of bytes of `get_modulus_le_bytes`) -/
+  modulus : Nat
+  elemBytes : Nat
+  queries : Nat
+  blowup : Nat
+  grinding : Nat
+  /-- `FieldExtension as u8`: 1, 2, 3 -/
+  ext : Nat
+  folding : Nat
+  remainder : Nat
+  deriving Repr, DecidableEq
+
+/-- `slice::chunks(n)` (fuel: the length of the list suffices) -/
+def chunksOf (n : Nat) : Nat → List Nat → List (List Nat)
+  | 0, _ => []
+  | fuel + 1, bs => if bs.isEmpty then [] else bs.take n :: chunksOf n fuel (bs.drop n)
+
+/-- `TraceInfo::to_elements`: widths / segment count / random element count packed into one element, the
+    trace length (`as u32`), then the metadata in chunks of `ELEMENT_BYTES - 1` bytes, each zero-padded
+    (`from_bytes_with_padding`: the little-endian value of the chunk) -/
+def traceInfoElems (c : Ctx) : List Nat :=
+  let buf := c.mainWidth * 256 + (if c.auxWidth > 0 then 1 else 0)
+  let buf := if c.auxWidth > 0 then (buf * 256 + c.auxWidth) * 256 + c.auxRands else buf
+  [buf, c.traceLen % 4294967296] ++ (chunksOf (c.elemBytes - 1) c.traceMeta.length c.traceMeta).map Model.Coin.leVal
+
+/-- `Context::to_elements`: trace info, the two halves of the modulus bytes, `ProofOptions::to_elements` -/
+def ctxElems (c : Ctx) : List Nat :=
+  traceInfoElems c
+    ++ [c.modulus % 2 ^ (8 * (c.elemBytes / 2)), c.modulus / 2 ^ (8 * (c.elemBytes / 2))]
+    ++ [(c.ext * 256 + c.folding) * 256 + c.remainder, c.grinding, c.blowup, c.queries]
+
+/-- what the constructors (`TraceInfo::new_multi_segment`, `Context::new`, `ProofOptions::new`) guarantee -/
+def Ctx.valid (c : Ctx) : Prop :=
+  1 ≤ c.mainWidth ∧ c.mainWidth + c.auxWidth ≤ 255 ∧ c.auxRands ≤ 255 ∧ (c.auxWidth = 0 → c.auxRands = 0) ∧
+  c.traceLen < 4294967296 ∧ (∀ b ∈ c.traceMeta, b < 256) ∧ c.folding ≤ 255 ∧ c.remainder ≤ 255 ∧ 2 ≤ c.elemBytes ∧
+  c.modulus < 2 ^ (8 * c.elemBytes) ∧ c.elemBytes % 2 = 0
 
 -- ====================================================================================== canonical text
 def Msg.tag : Msg → String
